@@ -13,7 +13,7 @@ ASSUMPTIONS = [
     "the model abstracts the directory layout of an object to: root inventory + set of content files (path, digest); layout paths, sidecars and version-directory inventories are judged by the oracles on the real tree",
 ]
 CORRESPONDENCE = "Rocfl.step (lean/RocflModel/Machine.lean over Stage.lean/Inventory.lean) vs OcflRepo operations (src/ocfl/repo.rs, store/fs.rs)"
-BUDGET = {"quick": dict(histories=120, ops=12, seconds=150), "thorough": dict(histories=4000, ops=28, seconds=1500)}
+BUDGET = {"quick": dict(histories=700, ops=16, seconds=150), "thorough": dict(histories=4000, ops=28, seconds=1500)}
 
 
 def corpus_specs(pid):
